@@ -20,7 +20,7 @@ def main():
     ap.add_argument("--checks", default=None)
     a = ap.parse_args()
     sd = os.path.join(ROOT, "seeded")
-    ids = a.ids or sorted(d for d in os.listdir(sd) if os.path.isdir(os.path.join(sd, d)))
+    ids = a.ids or sorted(d for d in os.listdir(sd) if os.path.isfile(os.path.join(sd, d, "meta.json")))
     resf = os.path.join(sd, "RESULTS.json")
     results = json.load(open(resf)) if os.path.exists(resf) else {}
     os.makedirs(os.path.join(ROOT, ".cache"), exist_ok=True)
